@@ -634,8 +634,35 @@ func (c *Ctx) enterLoop(h *ssa.BasicBlock, mp []mergePred, mpIdx []int, r string
 	havocAll, nonLocalStore, unknownStore := false, false, false
 	var modPrefixes []string
 	modLocals := map[*ssa.Alloc]bool{}
+	// the effects of the loop body: its own instructions and, for calls of local closures that
+	// will be inlined, the instructions of those closures
+	var scanned []ssa.Instruction
+	seenFn := map[*ssa.Function]bool{}
+	var scanFn func(f *ssa.Function)
+	scanInstr := func(in ssa.Instruction) {
+		if call, ok := in.(*ssa.Call); ok {
+			if ci := c.closureOf(call.Common().Value); ci != nil && c.canInline(ci.fn) && !seenFn[ci.fn] && c.P.CS.Funcs[fnKey(ci.fn)] == nil {
+				scanFn(ci.fn)
+				return
+			}
+		}
+		scanned = append(scanned, in)
+	}
+	scanFn = func(f *ssa.Function) {
+		seenFn[f] = true
+		for _, b := range f.Blocks {
+			for _, in := range b.Instrs {
+				scanInstr(in)
+			}
+		}
+	}
 	for b := range body {
 		for _, in := range b.Instrs {
+			scanInstr(in)
+		}
+	}
+	for _, in := range scanned {
+		{
 			switch x := in.(type) {
 			case *ssa.Store:
 				if a := rootAlloc(x.Addr); a != nil && c.localExact[a] {
@@ -644,8 +671,8 @@ func (c *Ctx) enterLoop(h *ssa.BasicBlock, mp []mergePred, mpIdx []int, r string
 					nonLocalStore = true
 					// which heap maps can this store change? (scalar field of a heap struct /
 					// scalar slice element): then only those maps are havocked at the head
-					if pfx, ok := staticStorePrefix(x.Addr); ok {
-						modPrefixes = append(modPrefixes, pfx)
+					if pfx, ok := staticStorePrefixes(x.Addr); ok {
+						modPrefixes = append(modPrefixes, pfx...)
 					} else {
 						unknownStore = true
 					}
@@ -1185,4 +1212,9 @@ func (c *Ctx) mentionsDeclared(e *Expr) bool {
 		}
 	}
 	return false
+}
+
+func fnKey(f *ssa.Function) string {
+	k, _, _ := fnIDs(f)
+	return k
 }
